@@ -103,10 +103,15 @@ theorem genAttached_resp (w : World) (i : Nat) (e : Emitter) (op : Op) :
     · rw [if_pos hk, if_pos (pos hk)]
       exact viaAsm_resp w i e (asmElabel · · id sz) (fun c => asmElabel_resp c id sz) hk
     · rw [if_neg hk, if_neg (neg hk)]
-      by_cases hc : (!(sz == 0 || sz == 1 || sz == 2 || sz == 4 || sz == 8)) = true
-      · rw [if_pos hc, if_pos hc]; exact same_resp w _
-      · rw [if_neg hc, if_neg hc]
-        exact ⟨setE_resp w i _ _ (addNode_resp e _ hk), rfl⟩
+      by_cases hl : id ≥ w.h.labels.length
+      · have hl' : id ≥ w.obs.h.labels.length := hl
+        rw [if_pos hl, if_pos hl']; exact same_resp w _
+      · have hl' : ¬ id ≥ w.obs.h.labels.length := hl
+        rw [if_neg hl, if_neg hl']
+        by_cases hc : (!(sz == 0 || sz == 1 || sz == 2 || sz == 4 || sz == 8)) = true
+        · rw [if_pos hc, if_pos hc]; exact same_resp w _
+        · rw [if_neg hc, if_neg hc]
+          exact ⟨setE_resp w i _ _ (addNode_resp e _ hk), rfl⟩
   case switch j s =>
     simp only [World.genAttached]
     by_cases hc : s ≥ w.h.secs.length
